@@ -717,7 +717,35 @@ def rule_e(ctx):
     ctx.floor(R, 6)
 
 
+def rule_f(ctx):
+    R = "C18.f"
+    ctx.rule(R, "what a saved correction does not persist must not matter: the helper objects a reloaded correction rebuilds from scratch (the "
+             "TranslationEstimator behind DriftCorrection / TranslationCorrection) carry no state from one call to the next -- hidden-state "
+             "analysis with every public method as entry; a value remembered from earlier frames makes the used object and its reloaded "
+             "copy disagree on the same input")
+    from ..state import StateAnalysis
+
+    m = ctx.model
+    k = m.cls("darsia.corrections.shape.translation", "TranslationEstimator")
+    ents = [n for n in k.methods if not n.startswith("__")]
+    ctx.need(len(ents) >= 3, "TranslationEstimator: methods not found")
+    sa = StateAnalysis(m, k, ents)
+    ctx.instance(R, len(ents))
+    seen = set()
+    for f, n, a, kind, an, chain in sa.cross_call_reads():
+        key = (f.qname, a, n.text())
+        if key in seen:
+            continue
+        seen.add(key)
+        ok, why = sa.justify(f, n, a, kind)
+        ctx.ob(R, f.qname, f"TranslationEstimator: read of self.{a} in `{n.text()[:60]}` does not depend on earlier calls", ok,
+               f"{why}. The attribute is written while matching and read by a later match; save / load do not carry it", an, evidence=True)
+    ctx.ob(R, k.qname, f"TranslationEstimator: {len(ents)} method(s) analysed for state kept between calls ({sorted(sa.call_written)})", True, "", k.node)
+    ctx.floor(R, 3)
+
+
 def run(ctx):
+    rule_f(ctx)
     rule_a(ctx)
     rule_b(ctx)
     rule_c(ctx)
